@@ -34,6 +34,7 @@ import (
 	prfsubtle "github.com/tink-crypto/tink-go/v2/prf/subtle"
 	sigsubtle "github.com/tink-crypto/tink-go/v2/signature/subtle"
 	streamsubtle "github.com/tink-crypto/tink-go/v2/streamingaead/subtle"
+	"github.com/tink-crypto/tink-go/v2/streamingaead/subtle/noncebased"
 	tsubtle "github.com/tink-crypto/tink-go/v2/subtle"
 	"github.com/tink-crypto/tink-go/v2/tink"
 )
@@ -389,6 +390,77 @@ func (s *engine) sectionSubtle(seed uint64) {
 			return streamsubtle.NewAESCTRHMAC(ins[0], "SHA256", 16, "SHA256", 16, 64, 0)
 		}}, seed)
 
+	// ---- streamingaead/subtle/noncebased: the NoncePrefix of WriterParams / ReaderParams
+	{
+		prefix := rng.Bytes(7)
+		msg := rng.Bytes(40)
+		encNB := func(np []byte) (*noncebased.Writer, *bytes.Buffer, error) {
+			var buf bytes.Buffer
+			w, err := noncebased.NewWriter(noncebased.WriterParams{W: &buf, SegmentEncrypter: toySegment{}, NonceSize: 12, NoncePrefix: np, PlaintextSegmentSize: 16})
+			return w, &buf, err
+		}
+		decNB := func(np, ct []byte) (*noncebased.Reader, error) {
+			return noncebased.NewReader(noncebased.ReaderParams{R: bytes.NewReader(ct), SegmentDecrypter: toySegment{}, NonceSize: 12, NoncePrefix: np, CiphertextSegmentSize: 28})
+		}
+		e.run(spec{api: "streamingaead/subtle/noncebased.NewWriter", once: true, ins: []in1{{"NoncePrefix", prefix}}, mk: func() (*inst, error) {
+			var w *noncebased.Writer
+			var buf *bytes.Buffer
+			done, cached := false, ""
+			return &inst{call: func(ins [][]byte) ([][]byte, string) {
+				var err error
+				w, buf, err = encNB(ins[0])
+				return nil, errS(err)
+			}, observe: func() string {
+				if w == nil {
+					return "no-writer"
+				}
+				if !done {
+					done = true
+					_, e1 := w.Write(cl(msg))
+					e2 := w.Close()
+					r, e3 := decNB(cl(prefix), buf.Bytes())
+					var d []byte
+					var e4 error
+					if e3 == nil {
+						d, e4 = io.ReadAll(r)
+					}
+					cached = fmt.Sprintf("stream=%s%s%s%s%s", errS(e1), errS(e2), errS(e3), errS(e4), hx(d))
+				}
+				return cached
+			}}, nil
+		}})
+		if w0, buf0, err := encNB(cl(prefix)); err == nil {
+			w0.Write(cl(msg))
+			w0.Close()
+			ct := cl(buf0.Bytes())
+			e.run(spec{api: "streamingaead/subtle/noncebased.NewReader", once: true, ins: []in1{{"NoncePrefix", prefix}}, mk: func() (*inst, error) {
+				var r *noncebased.Reader
+				done, cached := false, ""
+				return &inst{call: func(ins [][]byte) ([][]byte, string) {
+					var err error
+					r, err = decNB(ins[0], cl(ct))
+					return nil, errS(err)
+				}, observe: func() string {
+					if r == nil {
+						return "no-reader"
+					}
+					if !done {
+						done = true
+						d, e1 := io.ReadAll(r)
+						cached = fmt.Sprintf("stream=%s%s", errS(e1), hx(d))
+					}
+					return cached
+				}}, nil
+			}})
+		}
+	}
+	e.run(spec{api: "subtle.ComputeHash", det: true, ins: []in1{{"data", rng.Bytes(21)}}, mk: func() (*inst, error) {
+		return &inst{call: func(ins [][]byte) ([][]byte, string) {
+			out, err := tsubtle.ComputeHash(tsubtle.GetHashFunc("SHA256"), ins[0])
+			return [][]byte{out}, errS(err)
+		}}, nil
+	}})
+
 	// ---- KWP
 	e.ctorPrim(ctor{api: "kwp/subtle.NewKWP", class: "daead", ins: []in1{{"wrappingKey", k32}},
 		build: func(ins [][]byte) (any, error) {
@@ -531,6 +603,19 @@ func (s *engine) sectionSubtle(seed uint64) {
 			}})
 		}
 	}
+}
+
+// toySegment: segment cipher for the nonce-based streaming framework: nonce || segment.
+type toySegment struct{}
+
+func (toySegment) EncryptSegment(segment, nonce []byte) ([]byte, error) {
+	return append(cl(nonce), segment...), nil
+}
+func (toySegment) DecryptSegment(segment, nonce []byte) ([]byte, error) {
+	if len(segment) < len(nonce) || !bytes.Equal(segment[:len(nonce)], nonce) {
+		return nil, fmt.Errorf("toy segment: wrong nonce")
+	}
+	return cl(segment[len(nonce):]), nil
 }
 
 func out1e(b []byte, err error) ([][]byte, string) {
